@@ -483,6 +483,26 @@ def one(prog, rep, cls, comb):
             ok = okin and okfin and size_ok
             why = ("AND contour: arrays of size len(thetas)+1, point i stored at index i (x from component 0, y from component 1), final point (0, 0) at index -1; "
                    f"in-loop ok={okin} closing ok={okfin} size ok={size_ok}")
+        if not ok and ct is not None and ct[0] == "attr" and ct[2] == "T" and ct[1][0] in ("call", "local"):
+            # ... or one (2, len(thetas) + 1) matrix filled column by column and transposed: column i <- the vector's column, the last
+            # column is the closing point (0, 0) BY INITIALISATION - so the matrix must start as zeros, not as np.empty
+            mname_ = ct[1][1] if ct[1][0] == "local" else None
+            init = bf.name(mname_, F, {}) if mname_ is not None else ct[1]
+            thetas_t = bf.term(F.iter, F)
+            th = thetas_t[2][0] if thetas_t[0] == "call" and thetas_t[1] == G("enumerate") else None
+            sizes = [("bin", "+", ("attr", th, "size"), ("const", 1)), ("bin", "+", ("call", G("len"), (th,), ()), ("const", 1))] if th is not None else []
+            zeros_ok = init[1] == G("numpy.zeros") and len(init[2]) >= 1 and init[2][0][0] == "tuple" and len(init[2][0][1]) == 2 and init[2][0][1][0] == ("const", 2) \
+                and init[2][0][1][1] in sizes
+            mstores = [st for st in cfg.all_stmts() if isinstance(st, (ast.Assign, ast.AugAssign)) and isinstance((st.targets[0] if isinstance(st, ast.Assign) else st.target), ast.Subscript)
+                       and (bs.term((st.targets[0] if isinstance(st, ast.Assign) else st.target).value, st) in (init, ct[1]))]
+            i = ("idx", lid, "enumerate")
+            col_i = ("tuple", (("slice", NONE, NONE, NONE), i))
+            vcol = ("col", Lc(vname), ("const", 0))
+            in_ok = len(mstores) == 1 and isinstance(mstores[0], ast.Assign) and cfg.enclosing_loops(mstores[0]) and bf.term(mstores[0].targets[0].slice, mstores[0]) == col_i \
+                and scF.term(mstores[0].value, mstores[0]) in (vcol, ("call", ("attr", Lc(vname), "ravel"), (), ()), ("call", ("attr", Lc(vname), "flatten"), (), ()))
+            ok = zeros_ok and in_ok
+            why = ("AND contour as one matrix: np.zeros((2, len(thetas) + 1)) (zeros: its last column is the closing point), column i <- the point of direction i, transposed; "
+                   f"zeros / size ok={zeros_ok} in-loop ok={in_ok}")
         rep.check(ok, "C04.close", f"{q}:closure", fn.where(coord[0]) if coord else fn.where(), "points at their own index, closed with (0, 0)", why)
         return {"fn": fn, "W": W, "mask": mask_st, "mname": mname, "bs": bs}
     # OrContour: sequences appended to the two lists
@@ -510,13 +530,30 @@ def one(prog, rep, cls, comb):
             # y_last = coords_y[-1]: valid only while nothing was appended to that list yet
             temps[st.targets[0].id] = (bs.term(st.value, st), len(seq[st.value.value.id]))
             continue
-        if isinstance(st, ast.Expr) and isinstance(st.value, ast.Call) and isinstance(st.value.func, ast.Attribute) and isinstance(st.value.func.value, ast.Name) and st.value.func.value.id in seq:
-            nm = st.value.func.value.id
+        # the closing points as one concatenation: L = L + [a, b, c] / L += [...] / np.array(L + [a, b, c], dtype=float)
+        cat = None
+        if isinstance(st, (ast.Assign, ast.AugAssign)):
+            v0 = st.value
+            if isinstance(v0, ast.Call) and ast.unparse(v0.func) in ("np.array", "np.asarray", "numpy.array", "numpy.asarray") and v0.args:
+                v0 = v0.args[0]
+            if isinstance(st, ast.AugAssign) and isinstance(st.op, ast.Add) and isinstance(st.target, ast.Name) and st.target.id in seq and isinstance(v0, (ast.List, ast.Tuple)):
+                cat = (st.target.id, list(v0.elts))
+            elif isinstance(st, ast.Assign) and isinstance(v0, ast.BinOp) and isinstance(v0.op, ast.Add) and isinstance(v0.left, ast.Name) and v0.left.id in seq \
+                    and isinstance(v0.right, (ast.List, ast.Tuple)):
+                cat = (v0.left.id, list(v0.right.elts))
+        is_call = isinstance(st, ast.Expr) and isinstance(st.value, ast.Call) and isinstance(st.value.func, ast.Attribute) and isinstance(st.value.func.value, ast.Name) and st.value.func.value.id in seq
+        if is_call or cat is not None:
             vals = []
-            if st.value.func.attr == "append" and len(st.value.args) == 1:
+            if cat is not None:
+                nm, vals = cat
+            elif st.value.func.attr == "append" and len(st.value.args) == 1:
+                nm = st.value.func.value.id
                 vals = [st.value.args[0]]
             elif st.value.func.attr == "extend" and len(st.value.args) == 1 and isinstance(st.value.args[0], (ast.List, ast.Tuple)):
+                nm = st.value.func.value.id
                 vals = list(st.value.args[0].elts)
+            else:
+                nm = st.value.func.value.id
             for v_ in vals:
                 tv = bs.term(v_, st)
                 if tv[0] == "local" and tv[1] in temps:
